@@ -384,6 +384,79 @@ let dump (w : world) =
     (match e.e_oraclemode with OrOk -> "ok" | OrFail -> "fail" | OrZero -> "zero")
     (String.concat "" (Array.to_list (Array.map (fun v -> b01 (can_redelegate e v)) val_tbl)))
 
+(* ---------- state injection (PROTOCOL.md 3.4) ----------
+   The `poke_*` operations are NOT constructors of the Coq type `op` (Model/Exec.v is unchanged):
+   they are applied here, directly to the extracted world record.  No model arithmetic is involved
+   beyond "supply + new - old" (done in Z).  Result: Some world' (ok) or None (err, nothing changes). *)
+let max128 = Z.pred (Z.shift_left Z.one 128)
+
+(* supply' = supply + amt - old, None if negative or above 2^128-1 *)
+let moved total old amt =
+  let r = Z.sub (Z.add (z_of_n total) (z_of_n amt)) (z_of_n old) in
+  if Z.sign r < 0 || Z.gt r max128 then None else Some (n_of_z r)
+
+let is_poke line = String.length line >= 5 && String.sub line 0 5 = "poke_"
+
+let apply_poke (w : world) (line : string) : world option =
+  let toks = List.filter (fun s -> s <> "") (String.split_on_char ' ' line) in
+  let with_hub f = match w.w_hub with None -> None | Some h -> Some { w with w_hub = Some (f h) } in
+  let with_env f = Some { w with w_env = f w.w_env } in
+  match toks with
+  | ["poke_hubstate"; ber; ser; bb; bst; lim; phb; lut; lpb] ->
+      let s = { hs_ber = pn ber; hs_ser = pn ser; hs_bb = pn bb; hs_bst = pn bst; hs_lim = pn lim;
+                hs_phb = pn phb; hs_lut = pn lut; hs_lpb = pn lpb } in
+      with_hub (fun h -> { h with h_state = s })
+  | ["poke_batch"; id; rb; rst] ->
+      let b = { cb_id = pn id; cb_reqb = pn rb; cb_reqst = pn rst } in
+      with_hub (fun h -> { h with h_batch = b })
+  | ["poke_hist"; id; time; bamt; bapp; bwd; samt; sapp; swd; rel] ->
+      let e = { he_time = pn time; he_bamt = pn bamt; he_bapplied = pn bapp; he_bwithdraw = pn bwd;
+                he_samt = pn samt; he_sapplied = pn sapp; he_swithdraw = pn swd;
+                he_released = parse_bool01 rel } in
+      with_hub (fun h -> { h with h_hist = hist_put h.h_hist (pn id) e })
+  | ["poke_wait"; a; batch; b; st] ->
+      let k = (addr_of a, pn batch) in
+      let (b, st) = (pn b, pn st) in
+      with_hub (fun h ->
+          if is_zero b && is_zero st then { h with h_wait = del eqbAN h.h_wait k }
+          else { h with h_wait = set eqbAN h.h_wait k (b, st) })
+  | ["poke_tokbal"; t; a; amt] ->
+      let a = addr_of a and amt = pn amt in
+      let upd (tk : token) =
+        match moved tk.tk_supply (tbal tk a) amt with
+        | None -> None
+        | Some s' -> Some { tk with tk_supply = s'; tk_bal = set eqbA tk.tk_bal a amt } in
+      (match t with
+       | "bsei" -> (match w.w_bsei with None -> None | Some tk ->
+           (match upd tk with None -> None | Some tk' -> Some { w with w_bsei = Some tk' }))
+       | "stsei" -> (match w.w_stsei with None -> None | Some tk ->
+           (match upd tk with None -> None | Some tk' -> Some { w with w_stsei = Some tk' }))
+       | _ -> failwith ("bad token " ^ t))
+  | ["poke_holder"; a; bal; idx; pend] ->
+      let a = addr_of a and bal = pn bal in
+      (match w.w_reward with
+       | None -> None
+       | Some r ->
+           (match moved r.rw_total (holder_of r a).ho_bal bal with
+            | None -> None
+            | Some tot ->
+                let h = { ho_bal = bal; ho_idx = pn idx; ho_pend = pn pend } in
+                Some { w with w_reward =
+                                Some { r with rw_total = tot; rw_holders = set eqbA r.rw_holders a h } }))
+  | ["poke_rwstate"; gi; total; prev] ->
+      (match w.w_reward with
+       | None -> None
+       | Some r -> Some { w with w_reward = Some { r with rw_gi = pn gi; rw_total = pn total;
+                                                          rw_prev = pn prev } })
+  | ["poke_del"; a; v; amt] ->
+      with_env (fun e -> { e with e_del = set eqbNN e.e_del (addr_of a, val_of v) (pn amt) })
+  | ["poke_unb"; a; v; amt; t] ->
+      with_env (fun e -> { e with e_unb = e.e_unb @ [(((addr_of a, val_of v), pn amt), pn t)] })
+  | ["poke_pend"; a; v; d; amt] ->
+      with_env (fun e ->
+          { e with e_pend = set eqbAVD e.e_pend (addr_of a, (val_of v, denom_of d)) (pn amt) })
+  | _ -> failwith ("bad poke op: " ^ line)
+
 (* ---------- run ---------- *)
 let is_tx = function OTx _ -> true | _ -> false
 
@@ -395,6 +468,16 @@ let run_file path =
      while true do
        let line = String.trim (input_line ic) in
        if line = "" || line.[0] = '#' then ()
+       else if is_poke line then begin
+         let r = (try apply_poke !w line with Failure m ->
+             prerr_endline ("parse error: " ^ m ^ " in: " ^ line); exit 2) in
+         (match r with Some w' -> w := w' | None -> ());
+         pr "op %d %s\n" !idx (match r with Some _ -> "ok" | None -> "err");
+         dump !w;
+         pr "end\n";
+         incr idx;
+         if Buffer.length buf > (1 lsl 19) then flush_buf ()
+       end
        else begin
          let o = (try parse_op line with Failure m ->
              prerr_endline ("parse error: " ^ m ^ " in: " ^ line); exit 2) in
